@@ -23,15 +23,17 @@ Theorem C07_fuel_linear : forall body,
   body_fuel body <= fold_right (fun t n => 2 * String.length t + 1 + n) 0 body.
 Proof. exact body_fuel_linear. Qed.
 
-(** Only documented errors -- FALSE at full strength (F-C07b below).
-    Proved under the guard [c07_guard]: the parser has an initial context and
-    arguments are well-formed (named; counters start from a number; list
-    arguments are not value-optional; an argument called "help" is not
-    int-valued).  Int-valued arguments ARE allowed, so the theorem applies to
-    the real core context ([C07_guard_inhabited]).  Then the outcome is a
-    result or ParseError: AttributeError, KeyError, TypeError, ValueError and
-    fluidity's InvalidTransition are unreachable.
-    Missing for full strength: parsers without initial context (F-C07b). *)
+(** Only documented errors.  Guard [c07_guard]: the parser can be constructed
+    (named tasks, distinct names/aliases) and arguments are well-formed (named;
+    counters start from a number; list arguments are not value-optional; an
+    argument called "help" is not int-valued).  Int-valued arguments are allowed
+    (401bc73) and an initial context is NOT required (e36c9e6), so the theorem
+    applies to the real core context and to bare [Parser(contexts)]
+    ([C07_guard_inhabited], [C07_no_initial_cluster_is_parse_error]).  Then the
+    outcome is a result or ParseError: AttributeError, KeyError, TypeError,
+    ValueError and fluidity's InvalidTransition are unreachable.  The guard is
+    static well-formedness of the contexts only -- what Collection.to_contexts
+    and Program.initial_context always produce -- hence the name keeps _partial. *)
 Theorem C07_only_parse_errors_partial : forall cs init ign argv,
   c07_guard cs init = true ->
   match parser_parse cs init ign argv with Ok _ => True | Err e => e = EParse end.
@@ -45,9 +47,13 @@ Theorem C07_int_value_is_parse_error :
   parser_parse [] (Some core_ctx) true ["-T"; "abc"] = Err EParse.
 Proof. exact int_value_is_parse_error. Qed.
 
-Theorem C07_only_parse_errors_refuted_no_initial :
-  exists cs argv, parser_ok cs = true /\ parser_parse cs None false argv = Err EAttr.
-Proof. exact refuted_no_initial. Qed.
+(** F-C07b is repaired (e36c9e6): no initial context + a short-flag cluster. *)
+Theorem C07_no_initial_cluster_is_parse_error :
+  c07_guard small_cs None = true /\
+  parser_parse small_cs None false ["-abc"] = Err EParse /\
+  exists r, parser_parse small_cs None false ["t"; "-fn"; "x"; "q"; "5"] = Ok r
+            /\ List.length (pr_ctxs r) = 2.
+Proof. exact no_initial_cluster_is_parse_error. Qed.
 
 (** "Missing positional arguments are an error" (full, no guard): whenever a
     parse succeeds -- any parser, any initial context or none, any command line,
